@@ -66,6 +66,7 @@
 #include "lpc/include/function.h"
 
 #include "sprintf.h"
+#include "rc.h"
 
 #if defined(F_SPRINTF) || defined(F_PRINTF)
 
@@ -1407,6 +1408,14 @@ void f_sprintf (void) {
 
   s = string_print_formatted ((sp - num_arg + 1)->u.string,
                               num_arg - 1, sp - num_arg + 2);
+  /* the result is an LPC value: it must respect the maximum string length
+   * (%s of long arguments, field widths, "%*s"); the arguments are still on
+   * the stack, only the formatted copy has to be released */
+  if (s && COUNTED_STRLEN (s) > (size_t)CONFIG_INT (__MAX_STRING_LENGTH__))
+    {
+      FREE_MSTR (s);
+      error ("sprintf: result exceeds maximum string length.\n");
+    }
   pop_n_elems (num_arg);
 
   (++sp)->type = T_STRING;
